@@ -128,10 +128,16 @@ def splitLoop : Nat → Win → Nat → Outcome (List Win × Win)
       | .panic c => .panic c
       | .err e => .err e
 
-/-- `Scratch::split_mut(n, len)`: `assert!(self.available() >= n * len)`, then `n` times
+/-- `usize::next_multiple_of(DEFAULTALIGN)` with `DEFAULTALIGN = 64` -/
+def nextMult64 (len : Nat) : Nat := len + (64 - len % 64) % 64
+
+/-- the size check of `split_mut`: `(n - 1) * len.next_multiple_of(DEFAULTALIGN) + len` for `n > 0` -/
+def splitNeeded (n len : Nat) : Nat := if n = 0 then 0 else (n - 1) * nextMult64 len + len
+
+/-- `Scratch::split_mut(n, len)`: `assert!(self.available() >= needed)`, then `n` times
 `split_at_mut(len)` (= `take_slice(len)`). -/
 def splitMut (w : Win) (n len : Nat) : Outcome (List Win × Win) :=
-  if w.available < n * len then .panic "assert" else splitLoop n w len
+  if w.available < splitNeeded n len then .panic "assert" else splitLoop n w len
 
 /-- What happens to one slot of the output slice. -/
 inductive Act where
